@@ -73,6 +73,7 @@ class UnitFile:
         self.canaries = []   # names of canary fns
         self.skeletons = {}  # fn name -> skeleton hash
         self.safety_props = {}  # fn name -> props of its panic-freedom obligations
+        self.unspecified_loops = {}  # fn name -> number of loops the contract has no spec for
         self._sources = {}
         self.errors = []
 
@@ -210,6 +211,11 @@ class UnitFile:
             self.raw("impl %s {" % wrap_impl_header(wrap_impl), fn=gname, props=props)
         for a in (contract.attrs if contract else []):
             self.raw(a, fn=gname, props=props)
+        if contract is not None and kind != "type":
+            _t = code_tokens(tokenize(text if kind == "block" else body_text))
+            _n = sum(1 for t in _t if t.kind == "ident" and t.text in ("while", "loop", "for"))
+            if _n > len(contract.loops) and "#[verifier::exec_allows_no_decreases_clause]" not in contract.attrs:
+                self.raw("#[verifier::exec_allows_no_decreases_clause]", fn=gname, props=props)
         # signature lines
         n_head = head.count("\n") + 1
         self.emit(head, None)
@@ -310,6 +316,11 @@ class UnitFile:
         if c.body_prelude:
             self._inserts.append([("        " + x, None) for x in c.body_prelude.strip().split("\n")])
             edits.append((toks[0].end, len(self._inserts) - 1, "stmt"))
+        missing = [k for k in range(1, ordinal + 1) if k not in c.loops]
+        if missing and (c.ensures or c.requires):
+            # a loop the contract knows nothing about (the code was restructured, or a rewrite
+            # rule introduced it): its invariants are unknown, so failures are not conclusive
+            self.unspecified_loops[gname] = len(missing)
         if max(list(c.loops.keys()) + [0]) > ordinal:
             raise ExtractError("%s: contract names loop #%d but body has %d loops"
                                % (gname, max(c.loops.keys()), ordinal))
